@@ -64,7 +64,24 @@ for _i in range(40):
 # ... and only then the next out-event
 _BIG.append(['interface', 'Last', [], [['o', 'out', ['void'], [['a', ['X1'], 'in']]], ['i', 'in', ['void'], []]]])
 DOCS.append(_BIG)
-EXPECTED = [D.expected(DOCS[0]), D.expected(DOCS[1]), None, D.expected(DOCS[3]), D.expected(DOCS[4])]
+# FAILURE PATHS: documents 5..7 fail in other ways and places (own family of histories only): with the identifier-
+# validation error three namespaces deep after a sibling namespace was completed; with the parser's error on the first
+# element of a multi-identifier namespace; at top level AFTER a namespace was parsed completely
+DOCS.append([['enum', 'Early', ['P']], ['ns', ['Other'], [['enum', 'Done', ['D']]]],
+             ['ns', ['A'], [['ns', ['Deep', 'Er'], [['ns', ['Deepest'], [['extern', 'Fine', 'int'],
+                                                                          ['junk', {'<class>': 'enum', 'name': D.sn(['Not-An-Identifier']),
+                                                                                    'fields': []}]]]]]]],
+             ['enum', 'Late', ['Q']]])
+DOCS.append([['ns', ['X', 'Y'], [['junk', {'<class>': 'interface', 'name': D.sn(['NoEvents'])}], ['enum', 'Never', ['N']]]]])
+DOCS.append([['ns', ['A'], [['enum', 'E', ['X']]]], ['junk', {'<class>': 'extern', 'name': D.sn(['NoValue'])}]])
+# EDGE VALUES: a range bound of 2**64 / below -2**63 (the JSON decoder hands these over as floats: refused when parsed alone)
+DOCS.append([['enum', 'Before', ['B']], ['subint', 'Huge', 0, 2 ** 64], ['enum', 'After', ['A']]])
+DOCS.append([['ns', ['A'], [['subint', 'Low', -(2 ** 63) - 1, 0]]]])
+EXPECTED = [D.expected(DOCS[0]), D.expected(DOCS[1]), None, D.expected(DOCS[3]), D.expected(DOCS[4]), None, None, None, None, None]
+# files that are no (UTF-8) JSON at all: loading them fails in whatever way - and must not influence any later parse
+UNDECODABLE = {'bom': lambda raw: b'\xef\xbb\xbf' + raw, 'utf16': lambda raw: raw.decode('utf-8').encode('utf-16'),
+               'truncated': lambda raw: raw[:len(raw) // 2], 'empty': lambda raw: b'', 'nan': lambda raw: b'{"x": NaN}',
+               'lone-surrogate': lambda raw: b'{"x": "\\ud800"}', 'deep': lambda raw: b'[' * 2000 + b']' * 2000}
 
 _TMP = {}
 _ALONE = {}
@@ -143,7 +160,9 @@ def globals_digest():
 def run_history(ops):
     """Replay ops on fresh objects. Returns (violations, canonical_state)."""
     from dznpy.json_ast import DznJsonAst, DznJsonError  # pylint: disable=import-outside-toplevel
+    from dznpy.scoping import NamespaceIdsTypeError  # pylint: disable=import-outside-toplevel
     out = []
+    kept = []
     slots = {}
     slotdoc = {}
     returned = []   # (op index, slot, object, snapshot normal form)
@@ -178,6 +197,23 @@ def run_history(ops):
                     if ret is not slots[slot]:
                         out.append(('load_file-not-fluent', f'op {i}'))
                     slotdoc[slot] = op[2]
+                elif kind == 'loadbad':
+                    if slot not in slots:
+                        slots[slot] = DznJsonAst()
+                    good = doc_file(0)
+                    with open(good, 'rb') as fh:
+                        raw = fh.read()
+                    badpath = os.path.join(os.path.dirname(good), f'undecodable_{op[2]}.json')
+                    with open(badpath, 'wb') as fh:
+                        fh.write(UNDECODABLE[op[2]](raw))
+                    try:
+                        slots[slot].load_file(badpath)
+                        slotdoc[slot] = None        # accepted after all: nothing is known about what it holds now
+                    except Exception as exc:  # pylint: disable=broad-except
+                        if i % 2 == 0:
+                            kept.append(exc)
+                        if slot in slotdoc and slotdoc[slot] is not None:
+                            slotdoc[slot] = None    # whether the old document survives a failed load is not demanded
                 elif kind == 'use':
                     # ordinary use of a result by its owner: qualified names composed from the COMPUTED namespace
                     # properties with the library's own in-place operator (q = el.parent_ns.fqn; q += el.name.value)
@@ -194,15 +230,17 @@ def run_history(ops):
                                 trail += el.name.value
                                 trail.items.append('member')
                 elif kind == 'process':
-                    if slot not in slots:
-                        continue   # nothing to process yet: not an operation of this history
+                    if slot not in slots or slotdoc.get(slot) is None:
+                        continue   # nothing (known) to process: not an operation of this history
                     doc = slotdoc[slot]
                     try:
                         res = slots[slot].process()
-                    except DznJsonError as exc:
+                    except (DznJsonError, NamespaceIdsTypeError) as exc:
                         if EXPECTED[doc] is not None:
                             out.append(('valid-document-failed', f'op {i} {op}: {exc!r} history={ops}'))
-                        errors[doc].add(str(exc))
+                        errors[doc].add(f'{type(exc).__name__}: {exc}')
+                        if i % 2 == 0:
+                            kept.append(exc)      # the caller keeps the exception (and with it the traceback's frames) alive
                         continue
                     if EXPECTED[doc] is None:
                         out.append(('failing-document-succeeded', f'op {i} {op} history={ops}'))
@@ -283,6 +321,17 @@ def work(job):
             single_ops = [['reload', 0, d] for d in range(NSWEEP)] + [['process', 0]]
             for tail in itertools.product(single_ops, repeat=depth):
                 hist = [list(o) for o in prefix_ops] + [list(o) for o in tail]
+                _one(hist, part)
+        elif kind == 'failkinds':
+            # ONE instance (slot 0) loading valid and failing documents of every kind, a bystander instance (slot 1) that
+            # is constructed and processed in between: every sequence of exactly `depth` operations
+            fk_ops = [['reload', 0, d] for d in (0, 1, 2, 5, 6, 7, 8, 9)] + [['process', 0], ['new', 1, 0], ['process', 1]] + \
+                     [['loadbad', 0, 'bom'], ['loadbad', 1, 'nan']]
+            for tail in itertools.product(fk_ops, repeat=depth):
+                hist = [list(o) for o in prefix_ops] + [list(o) for o in tail]
+                if not any(o[0] == 'loadbad' or (o[0] == 'reload' and o[2] in (2, 5, 6, 7, 8, 9)) for o in hist) and \
+                        prefix_ops[0][2] not in (2, 5, 6, 7, 8, 9):
+                    continue
                 _one(hist, part)
         elif kind == 'use':
             # two instances; between the parses the owner of a result USES it (composes qualified names in place)
@@ -368,6 +417,20 @@ def explore(ctx):
     for d0 in range(NSWEEP):
         for d in range(1, 6 if ctx.thorough else 5):
             jobs.append(('use', [['new', 0, d0], ['process', 0]], 2, d))
+    fk_depth = 5 if ctx.thorough else 4
+    for d0 in (0, 2, 5, 8):
+        for d in range(1, fk_depth + 1):
+            if d <= 3:
+                jobs.append(('failkinds', [['new', 0, d0]], 2, d))
+            else:
+                for first in [['reload', 0, k] for k in (0, 1, 2, 5, 6, 7, 8, 9)] + [['process', 0], ['new', 1, 0], ['process', 1],
+                                                                                    ['loadbad', 0, 'bom'], ['loadbad', 1, 'nan']]:
+                    jobs.append(('failkinds', [['new', 0, d0], first], 2, d - 1))
+    # every kind of undecodable file, then a document with edge values, on the same and on another instance
+    for kind_ in UNDECODABLE:
+        for slot_bad in (0, 1):
+            for doc in (8, 9, 0, 2):
+                jobs.append(('failkinds', [['new', 0, 0], ['loadbad', slot_bad, kind_], ['reload', 0, doc], ['process', 0], ['process', 0]], 2, 0))
     for part in pmap(work, jobs):
         part.states = part.evaluations   # un-pruned: every history is its own state
         ctx.merge(part)
@@ -381,7 +444,7 @@ def explore(ctx):
                 f'<= {7 if ctx.thorough else 6} after construction with each document; plus histories in which the owner of a result uses '
                 'it between the parses (qualified names composed in place from the computed namespace properties); '
                 'non-trivial = history contains a process()')
-    ctx.bounds = {'slots': nslots, 'documents': 4, 'unpruned_depth': depth,
+    ctx.bounds = {'slots': nslots, 'documents': 4, 'unpruned_depth': depth, 'failure_kind_family_depth': fk_depth,
                   'pruned_depth': 7 if ctx.thorough else 5,
                   'single_instance_depth': 7 if ctx.thorough else 6}
     ctx.assumptions += ['pruning argument: a DznJsonAst holds only _ast, _file_contents, _ns_trail (immutable '
